@@ -6,7 +6,7 @@ from .props import (Prop, PROPS, kind_of, toks, entry_of, input_of, member_type,
                     gen_parse_inputs, gen_parse_mixed, gen_builds, ALL_LEAVES, ENTRY_MIN, ENTRY_PT, PT_ENTRY,
                     canon_fir_view, canon_fir_bytes, writes_of, size_n, entry_for_member, has_bad_token, perr_of,
                     hdr_of_view, classes_of, big_members, sdes_pad_sweep, carry_tiles, version_tiles, rpsi_pb_sweep, fmt_sweep,
-                    systematic_members, max_inputs, trunc_sweep, pad_overflow_sweep, edge_parse_lines)
+                    systematic_members, max_inputs, trunc_sweep, pad_overflow_sweep, edge_parse_lines, fci_probes)
 
 VARIANT_ENTRY = {'App': 'app', 'Bye': 'bye', 'Rr': 'rr', 'Sdes': 'sdes', 'Sr': 'sr', 'Tfb': 'tfb', 'Pfb': 'pfb',
                  'Unknown': 'unknown'}
@@ -485,6 +485,22 @@ class C13(Prop):
                     b2, p2 = 'parse %s %s' % (ent, hx(img)), 'parse %s %s' % (ent, hx(pad_image(img, p)))
                     self.pairs[p2] = (b2, p)
                     out += [b2, p2]
+        # SR / RR with a profile-specific extension after the report blocks (RFC 3550 6.4.1: accepted, not
+        # interpreted), then padded: the padding accessor reads the last octet, not "what follows the blocks"
+        for hdr, fixed in ((200, 24), (201, 4)):
+            for nb in (0, 1, 2):
+                for ext in (4, 20, 24, 28):
+                    body = g.rawbytes(fixed + 24 * nb + ext)
+                    total = 4 + len(body)
+                    img = bytes([0x80 | nb, hdr]) + (total // 4 - 1).to_bytes(2, 'big') + body
+                    e = PT_ENTRY[hdr]
+                    base = 'parse %s %s' % (e, hx(img))
+                    out.append(base)
+                    for p in (4, 24, 252):
+                        for ent in ((e, 'packet') if p == 4 else (e,)):
+                            b2, p2 = 'parse %s %s' % (ent, hx(img)), 'parse %s %s' % (ent, hx(pad_image(img, p)))
+                            self.pairs[p2] = (b2, p)
+                            out += [b2, p2]
         # packets above 64 KiB (16-bit arithmetic on the position of the padding count)
         for total in ([65540] if tier == 'quick' else [65536, 65540, 131072, 262140 - 252]):
             img = bytes([0x80 | g.r.randrange(32), 204]) + (total // 4 - 1).to_bytes(2, 'big') + g.rawbytes(8) + bytes(total - 12)
@@ -741,6 +757,8 @@ class C15(Prop):
             'touching bit 1, 16 and the 65535 wrap, SLI words on field boundaries, RPSI padding-bit counts around the FCI '
             'length, FIR entries, trailing partial words), padded variants, and raw FCI strings; non-trivial = distinct '
             'accepted feedback packet or FCI string')
+    def probes(self, tier):
+        return fci_probes(tier)
     def cases(self, g, tier, h):
         n = 600 if tier == 'quick' else 25000
         out = []
